@@ -870,17 +870,20 @@ Theorem C07_parse_model_extra : forall dbg hp hpo hd ovr, HostWf hp hpo hd ->
 Proof. exact parse_nobase_extra. Qed.
 Print Assumptions C07_parse_model_extra.
 
-(* the second clause of C07_statement with R := corrS for EVERY scalar-value input outside Known_C01 (special
-   schemes included): from C01_statement_all through C07_related_corrS.  Host functions: host_parse_ok =
+(* the second clause of C07_statement with R := corrS for EVERY scalar-value input outside Known_C01 whose scheme is
+   not "file" (special schemes included; since class 1 of Known_C01 was narrowed to the file inputs outside the
+   recogniser k_file_ok, Known_C01 no longer contains every file input, and the bridge related => corrS is proved
+   for schemes other than "file": input_is_file input = false is an explicit hypothesis - the GAP: file inputs
+   inside k_file_ok): from C01_statement_all through C07_related_corrS.  Host functions: host_parse_ok =
    host_fns_ok (the two sides agree) + HostWf (the text of a non-empty host is not empty, is led by neither ':' nor
    '@' and does not end with '/') + the empty host serialises as the empty string *)
 Theorem C07_parse_all_corrS : forall dbg hp ho hd shp shs, host_parse_ok hp ho hd shp shs ->
-  forall input u, usv_list input -> known_c01 None input = 0 ->
+  forall input u, usv_list input -> known_c01 None input = 0 -> input_is_file input = false ->
   parse_url dbg hp ho hd None None input = POk u ->
   exists su, spec_basic_url_parse shp input None = BDone su /\ corrS dbg shs u su.
 Proof. exact parse_all_corrS. Qed.
 Check C07_parse_all_corrS : forall dbg hp ho hd shp shs, host_parse_ok hp ho hd shp shs ->
-  forall input u, usv_list input -> known_c01 None input = 0 ->
+  forall input u, usv_list input -> known_c01 None input = 0 -> input_is_file input = false ->
   parse_url dbg hp ho hd None None input = POk u ->
   exists su, spec_basic_url_parse shp input None = BDone su /\ corrS dbg shs u su.
 Print Assumptions C07_parse_all_corrS.
@@ -889,7 +892,7 @@ Print Assumptions C07_parse_all_corrS.
    of hostname / protocol / hash / search / username / password / port assignments with any values, each outside
    Known_C07 - the ten API strings agree at the start and after every prefix *)
 Theorem C07_seven_all : forall dbg hp ho hd shp shs, host_parse_ok hp ho hd shp shs ->
-  forall input u ops, usv_list input -> known_c01 None input = 0 ->
+  forall input u ops, usv_list input -> known_c01 None input = 0 -> input_is_file input = false ->
   parse_url dbg hp ho hd None None input = POk u ->
   seven_ops ops -> outside_known dbg hp ho hd u ops ->
   exists su, spec_basic_url_parse shp input None = BDone su
@@ -900,7 +903,7 @@ Theorem C07_seven_all : forall dbg hp ho hd shp shs, host_parse_ok hp ho hd shp 
          /\ model_api dbg u' = Some (spec_api_list shs su').
 Proof. exact seven_from_parse_all. Qed.
 Check C07_seven_all : forall dbg hp ho hd shp shs, host_parse_ok hp ho hd shp shs ->
-  forall input u ops, usv_list input -> known_c01 None input = 0 ->
+  forall input u ops, usv_list input -> known_c01 None input = 0 -> input_is_file input = false ->
   parse_url dbg hp ho hd None None input = POk u ->
   seven_ops ops -> outside_known dbg hp ho hd u ops ->
   exists su, spec_basic_url_parse shp input None = BDone su
@@ -917,7 +920,7 @@ Print Assumptions C07_seven_all.
 Theorem C07_statement_seven_all : forall dbg hp ho hd shp shs, host_parse_ok hp ho hd shp shs ->
   exists R : url -> spec_url -> Prop,
     (forall u su, R u su -> model_api dbg u = Some (spec_api_list shs su))
-    /\ (forall input u, usv_list input -> known_c01 None input = 0 ->
+    /\ (forall input u, usv_list input -> known_c01 None input = 0 -> input_is_file input = false ->
           parse_url dbg hp ho hd None None input = POk u ->
           exists su, spec_basic_url_parse shp input None = BDone su /\ R u su)
     /\ (forall u su s v, R u su -> seven s = true -> usv_list v -> known_c07 u s v = 0 ->
@@ -926,7 +929,7 @@ Proof. exact statement_seven_all. Qed.
 Check C07_statement_seven_all : forall dbg hp ho hd shp shs, host_parse_ok hp ho hd shp shs ->
   exists R : url -> spec_url -> Prop,
     (forall u su, R u su -> model_api dbg u = Some (spec_api_list shs su))
-    /\ (forall input u, usv_list input -> known_c01 None input = 0 ->
+    /\ (forall input u, usv_list input -> known_c01 None input = 0 -> input_is_file input = false ->
           parse_url dbg hp ho hd None None input = POk u ->
           exists su, spec_basic_url_parse shp input None = BDone su /\ R u su)
     /\ (forall u su s v, R u su -> seven s = true -> usv_list v -> known_c07 u s v = 0 ->
@@ -944,12 +947,13 @@ Print Assumptions C07_host_parse_ok_inhabited.
 Example C07_seven_all_inhabited :
   let input := str " hTTps:\\u:p@H.x:0443/a/../b?q#f" in
   let ops := [(QHostname, str "y.z/w"); (QPort, str "81"); (QProtocol, str "ws"); (QUsername, []); (QHash, [])] in
-  usv_list input /\ known_c01 None input = 0 /\ seven_ops ops
+  usv_list input /\ known_c01 None input = 0 /\ input_is_file input = false /\ seven_ops ops
   /\ exists u, parse_url true ok_hp ok_ho toy_hd None None input = POk u
        /\ outside_known true ok_hp ok_ho toy_hd u ops
        /\ option_map q_href (model_run true ok_hp ok_ho toy_hd u ops) = Some (str "ws://:p@y.z:81/b?q").
 Proof.
   cbv zeta. split; [repeat constructor; vm_compute; auto|]. split; [vm_compute; reflexivity|].
+  split; [vm_compute; reflexivity|].
   split; [cbn [seven_ops seven]; repeat split; repeat constructor; vm_compute; auto|].
   eexists. split; [vm_compute; reflexivity|]. split; vm_compute; repeat split.
 Qed.
@@ -960,9 +964,10 @@ Qed.
    is the Standard's on every corrS-related pair: both parsers fail (URL unchanged on both sides), or both succeed
    with corrS-related records - EXCEPT the one arm of C01 that is no agreement: a new URL whose serialization is
    longer than u32::MAX bytes (the code answers ParseError::Overflow and keeps the old URL, the Standard sets the
-   new one); href_fits excludes it (a value of more than 4 GiB). *)
+   new one); href_fits excludes it (a value of more than 4 GiB).  href_ok = href_fits and the value's scheme is not
+   "file" (file values inside k_file_ok are outside Known_C01 now but the bridge to corrS does not cover them). *)
 Theorem C07_href_equiv : forall dbg hp ho hd shp shs, host_parse_ok hp ho hd shp shs ->
-  forall u su v, corrS dbg shs u su -> usv_list v -> known_c07 u QHref v = 0 -> href_fits shp shs v ->
+  forall u su v, corrS dbg shs u su -> usv_list v -> known_c07 u QHref v = 0 -> href_ok shp shs v ->
   exists u' su', model_set dbg hp ho hd QHref u v = Some u' /\ spec_step shp QHref su v = Some su'
     /\ corrS dbg shs u' su'.
 Proof. exact href_step. Qed.
@@ -971,19 +976,19 @@ Check C07_href_equiv : forall dbg hp ho hd shp shs, host_parse_ok hp ho hd shp s
   match spec_basic_url_parse shp v None with
   | BDone su' => nlen (get_href shs su') <= U32_MAX_P
   | _ => True
-  end ->
+  end /\ input_is_file v = false ->
   exists u' su', model_set dbg hp ho hd QHref u v = Some u' /\ spec_step shp QHref su v = Some su'
     /\ corrS dbg shs u' su'.
 Print Assumptions C07_href_equiv.
 
 (* PARTIAL C07_statement: one assignment through any of EIGHT setters (the seven and href) preserves corrS ... *)
 Theorem C07_eight_setters_partial : forall dbg hp ho hd shp shs, host_parse_ok hp ho hd shp shs ->
-  forall u su s v, corrS dbg shs u su -> (seven s = true \/ (s = QHref /\ href_fits shp shs v)) -> usv_list v ->
+  forall u su s v, corrS dbg shs u su -> (seven s = true \/ (s = QHref /\ href_ok shp shs v)) -> usv_list v ->
   known_c07 u s v = 0 ->
   exists u' su', model_set dbg hp ho hd s u v = Some u' /\ spec_step shp s su v = Some su' /\ corrS dbg shs u' su'.
 Proof. exact eight_step. Qed.
 Check C07_eight_setters_partial : forall dbg hp ho hd shp shs, host_parse_ok hp ho hd shp shs ->
-  forall u su s v, corrS dbg shs u su -> (seven s = true \/ (s = QHref /\ href_fits shp shs v)) -> usv_list v ->
+  forall u su s v, corrS dbg shs u su -> (seven s = true \/ (s = QHref /\ href_ok shp shs v)) -> usv_list v ->
   known_c07 u s v = 0 ->
   exists u' su', model_set dbg hp ho hd s u v = Some u' /\ spec_step shp s su v = Some su' /\ corrS dbg shs u' su'.
 Print Assumptions C07_eight_setters_partial.
@@ -1013,20 +1018,20 @@ Print Assumptions C07_eight_histories.
 Theorem C07_statement_eight_all : forall dbg hp ho hd shp shs, host_parse_ok hp ho hd shp shs ->
   exists R : url -> spec_url -> Prop,
     (forall u su, R u su -> model_api dbg u = Some (spec_api_list shs su))
-    /\ (forall input u, usv_list input -> known_c01 None input = 0 ->
+    /\ (forall input u, usv_list input -> known_c01 None input = 0 -> input_is_file input = false ->
           parse_url dbg hp ho hd None None input = POk u ->
           exists su, spec_basic_url_parse shp input None = BDone su /\ R u su)
-    /\ (forall u su s v, R u su -> (seven s = true \/ (s = QHref /\ href_fits shp shs v)) -> usv_list v ->
+    /\ (forall u su s v, R u su -> (seven s = true \/ (s = QHref /\ href_ok shp shs v)) -> usv_list v ->
           known_c07 u s v = 0 ->
           exists u' su', model_set dbg hp ho hd s u v = Some u' /\ spec_step shp s su v = Some su' /\ R u' su').
 Proof. exact statement_eight_all. Qed.
 Check C07_statement_eight_all : forall dbg hp ho hd shp shs, host_parse_ok hp ho hd shp shs ->
   exists R : url -> spec_url -> Prop,
     (forall u su, R u su -> model_api dbg u = Some (spec_api_list shs su))
-    /\ (forall input u, usv_list input -> known_c01 None input = 0 ->
+    /\ (forall input u, usv_list input -> known_c01 None input = 0 -> input_is_file input = false ->
           parse_url dbg hp ho hd None None input = POk u ->
           exists su, spec_basic_url_parse shp input None = BDone su /\ R u su)
-    /\ (forall u su s v, R u su -> (seven s = true \/ (s = QHref /\ href_fits shp shs v)) -> usv_list v ->
+    /\ (forall u su s v, R u su -> (seven s = true \/ (s = QHref /\ href_ok shp shs v)) -> usv_list v ->
           known_c07 u s v = 0 ->
           exists u' su', model_set dbg hp ho hd s u v = Some u' /\ spec_step shp s su v = Some su' /\ R u' su').
 Print Assumptions C07_statement_eight_all.
@@ -1040,7 +1045,7 @@ Example C07_eight_inhabited :
        /\ option_map q_href (model_run true ok_hp ok_ho toy_hd u ops) = Some (str "https://u:p@y.z/b?q#f").
 Proof.
   cbv zeta. split.
-  - cbn [eight_ops]. split; [right; split; [reflexivity|]; unfold href_fits; vm_compute; discriminate|].
+  - cbn [eight_ops]. split; [right; split; [reflexivity|]; split; [unfold href_fits; vm_compute; discriminate | vm_compute; reflexivity]|].
     split; [repeat constructor; vm_compute; auto|]. split; [left; reflexivity|].
     split; [repeat constructor; vm_compute; auto | exact I].
   - eexists. split; [vm_compute; reflexivity|]. split; vm_compute; repeat split.
